@@ -59,14 +59,34 @@ func mapHash(v core.Value) (h uint64, ok bool) {
 	return values.MapHash(map[string]core.Value{"k": v}), true
 }
 
+// membersHash: values.MapHash applied directly to the member map of an object
+func membersHash(v core.Value) (h uint64, ok bool) {
+	o, isObj := v.(*values.Object)
+	if !isObj {
+		return 0, false
+	}
+	defer func() {
+		if r := recover(); r != nil {
+			ok = false
+		}
+	}()
+	keys, vs := objMembers(o)
+	m := make(map[string]core.Value, len(keys))
+	for i, k := range keys {
+		m[k] = vs[i]
+	}
+	return values.MapHash(m), true
+}
+
 func le64(h uint64) string {
 	b := make([]byte, 8)
 	binary.LittleEndian.PutUint64(b, h)
 	return string(b)
 }
 
-// hasDelimKey: an object one of whose keys contains ':' (the byte that ends a
-// key in the hash pre-image)
+// hasDelimKey: an object one of whose keys contains ':' (the byte that follows
+// a key in the hash pre-image; harmless as long as the key's length is hashed
+// in front of it)
 func hasDelimKey(v core.Value) bool {
 	o, ok := v.(*values.Object)
 	if !ok {
@@ -178,8 +198,14 @@ func (u *universe) indices(a core.Value, err error) []int {
 }
 
 // extraValues: objects whose keys contain the delimiters, struct-identical
-// duplicates built in another insertion order, and the delimiter-collision
-// witnesses derived from the implementation's own hash of the first member.
+// duplicates built in another insertion order, and — as the LAST 2n entries —
+// the pairs that collide when a key is hashed without its length:
+//
+//	{a: v, b: w}   and   {"a:" ++ le64(hash v) ++ ",b": w}
+//
+// derived from the implementation's own hash of v, for n choices of (v, w).
+// They are different values: their hashes must differ and every
+// de-duplicating construct must keep both.
 func extraValues(rng *rand.Rand, n int) []core.Value {
 	var x []core.Value
 	one, two := values.Int(1), values.Int(2)
@@ -193,17 +219,23 @@ func extraValues(rng *rand.Rand, n int) []core.Value {
 		values.Float(math.Copysign(0, -1)), values.Float(0), values.Int(0),
 		values.NewString("[]"), Arr(), values.NewString("{}"), Obj(), values.NewBinary([]byte("a")), values.NewString("a"),
 	)
-	pool := []core.Value{values.Int(5578), values.Int(1), values.NewString("x"), values.None, Arr(values.Int(1)), values.True, values.Float(2.5)}
-	for i := 0; i < n; i++ {
+	pool := []core.Value{values.Int(5578), values.Int(1), values.NewString("x"), values.None, Arr(values.Int(1)), values.True, values.Float(2.5),
+		Obj("a", values.Int(1)), values.Int(2), values.NewString(":,")}
+	// keys that splice a whole member (with and without a length field of their
+	// own) into the key: near misses of the pre-image with the key length
+	for i := 0; i < len(pool); i++ {
+		h, _ := safeHash(pool[i])
+		x = append(x, Obj("a:"+le64(h)+","+le64(1)+"b", pool[(i+1)%len(pool)]),
+			Obj(le64(1)+"a:"+le64(h)+","+le64(1)+"b", pool[(i+1)%len(pool)]))
+	}
+	var pairs []core.Value
+	for i := 0; len(pairs) < 2*n; i++ {
 		v := pool[i%len(pool)]
 		w := pool[rng.Intn(len(pool))]
-		h, ok := safeHash(v)
-		if !ok {
-			continue
-		}
-		x = append(x, Obj("a", v, "b", w), Obj("a:"+le64(h)+",b", w))
+		h, _ := safeHash(v)
+		pairs = append(pairs, Obj("a", v, "b", w), Obj("a:"+le64(h)+",b", w))
 	}
-	return x
+	return append(x, pairs...)
 }
 
 type sliceIter struct {
@@ -439,7 +471,7 @@ func mutate(x core.Value) {
 }
 
 // writeBlock writes U and the class / permutation / copy observations.
-func writeBlock(w *bufio.Writer, u *universe, m *Meta, maxPermKeys int, withU bool) (hexH, hexM []string, pairs int) {
+func writeBlock(w *bufio.Writer, u *universe, m *Meta, maxPermKeys int, withU bool) (hexH, hexM, hexO []string, pairs int) {
 	n := len(u.vals)
 	if withU {
 		fmt.Fprintln(w, "Definition U : list value := [")
@@ -452,18 +484,26 @@ func writeBlock(w *bufio.Writer, u *universe, m *Meta, maxPermKeys int, withU bo
 		}
 		fmt.Fprintln(w, "].")
 	}
-	hs, ms := make([]uint64, n), make([]uint64, n)
-	hok, mok := make([]bool, n), make([]bool, n)
+	hs, ms, os := make([]uint64, n), make([]uint64, n), make([]uint64, n)
+	hok, mok, ook := make([]bool, n), make([]bool, n), make([]bool, n)
+	nObj := 0
 	for i, v := range u.vals {
 		hs[i], hok[i] = safeHash(v)
 		ms[i], mok[i] = mapHash(v)
+		os[i], ook[i] = membersHash(v)
 		hexH = append(hexH, fmt.Sprintf("%016x", hs[i]))
 		hexM = append(hexM, fmt.Sprintf("%016x", ms[i]))
+		if v.Type() == types.Object {
+			nObj++
+			hexO = append(hexO, fmt.Sprintf("%016x", os[i]))
+		} else {
+			hexO = append(hexO, "")
+		}
 	}
-	ch, cm := classes(hs, hok), classes(ms, mok)
-	fmt.Fprintf(w, "Definition CH : list N := %s.\nDefinition CM : list N := %s.\n", nList(ch), nList(cm))
+	ch, cm, co := classes(hs, hok), classes(ms, mok), classes(os, ook)
+	fmt.Fprintf(w, "Definition CH : list N := %s.\nDefinition CM : list N := %s.\nDefinition CO : list N := %s.\n", nList(ch), nList(cm), nList(co))
 	pairs = n * (n - 1) / 2
-	m.Evaluations += 2 * pairs
+	m.Evaluations += 2*pairs + nObj*(nObj-1)/2
 	merged := 0
 	for i := range ch {
 		if ch[i] != i {
@@ -551,7 +591,7 @@ func run(out, tier string, seed int64) {
 		nRandom, nWitness, nDedup, maxPerm, nBlocks, blockSize = 800, 21, 4000, 5, 40, 500
 	}
 	m := NewMeta("C08", tier, seed)
-	m.Rule = "universe = the C07 universe (all nine kinds, width<=2 depth<=2 containers, seeded random values) + objects with delimiter keys + same objects in other insertion orders + delimiter-collision witnesses derived from the implementation's own hash; one evaluation = one unordered pair (hash-equal? vs structurally identical?, for Value.Hash and for MapHash), one insertion permutation, one Copy/Clone, or one de-duplicating construct on one array; non-trivial = the pair's two renderings differ / the array has at least one planted duplicate; distinct = distinct rendered pairs + distinct (construct, input) texts"
+	m.Rule = "universe = the C07 universe (all nine kinds, width<=2 depth<=2 containers, seeded random values) + objects with delimiter keys + same objects in other insertion orders + keys that splice whole members into a key + the pairs {a:v,b:w} / {\"a:\"+le64(hash v)+\",b\": w} that collide when keys are hashed without their length, derived from the implementation's own hash for several v, w (they must hash differently and survive every de-duplicating construct); one evaluation = one unordered pair (hash-equal? vs structurally identical?, for Value.Hash, for MapHash of {k: v}, and for MapHash of the member maps of two objects), one insertion permutation, one Copy/Clone, or one de-duplicating construct on one array; non-trivial = the pair's two renderings differ / the array has at least one planted duplicate; distinct = distinct rendered pairs + distinct (construct, input) texts"
 	vals := Universe(rng, nRandom, tier)
 	vals = append(vals, extraValues(rng, nWitness)...)
 	u := newUniverse(vals)
@@ -593,7 +633,7 @@ func run(out, tier string, seed int64) {
 	if uOK {
 		fmt.Fprintln(w, "Require Import c08u.")
 	}
-	hexH, hexM, _ := writeBlock(w, u, m, maxPerm, !uOK)
+	hexH, hexM, hexO, _ := writeBlock(w, u, m, maxPerm, !uOK)
 
 	// distinct non-trivial pairs
 	texts := map[string]struct{}{}
@@ -616,7 +656,7 @@ func run(out, tier string, seed int64) {
 			}
 		}
 	}
-	// collision witness pairs (known finding class) sit at the end of U
+	// the pairs that collide without the key length sit at the end of U
 	witnessStart := len(vals) - 2*nWitness
 	var dIdx []interface{}
 	dcases := []string{}
@@ -671,7 +711,7 @@ func run(out, tier string, seed int64) {
 	for k := 0; k < nDedup; k++ {
 		var in []int
 		tags := []string{}
-		withWitness := k%20 == 19 // a few dedicated cases contain a colliding pair
+		withWitness := k%20 == 19 // dedicated cases contain one of those pairs: both members must be kept
 		poolN := 1 + rng.Intn(4)
 		if withWitness && poolN < 2 {
 			poolN = 2
@@ -762,7 +802,7 @@ func run(out, tier string, seed int64) {
 			}
 		}
 		if withWitness {
-			m.Count("dedup:with-collision-witness")
+			m.Count("dedup:with-former-collision-pair")
 		}
 		ostr := make([]string, len(outs))
 		for i, o := range outs {
@@ -778,7 +818,7 @@ func run(out, tier string, seed int64) {
 	fmt.Fprintln(w, "Definition D : list (list N * list (list N) * list N) := [")
 	fmt.Fprintln(w, strings.Join(dcases, ";\n"))
 	fmt.Fprintln(w, "].")
-	fmt.Fprintln(w, "Definition M := Eval vm_compute in mismatches U CH CM PM CP BC CL BL D.")
+	fmt.Fprintln(w, "Definition M := Eval vm_compute in mismatches U CH CM CO PM CP BC CL BL D.")
 	fmt.Fprintln(w, "Print M.")
 	Must(w.Flush())
 	Must(f.Close())
@@ -803,7 +843,7 @@ func run(out, tier string, seed int64) {
 		fmt.Fprintln(bw, "From Ferret Require Import Hash Check.C08.")
 		writeBlock(bw, bu, m, maxPerm, true)
 		writeCopies(bw, bu, m)
-		fmt.Fprintln(bw, "Definition M := Eval vm_compute in mismatches_block U CH CM PM CP BC CL BL.")
+		fmt.Fprintln(bw, "Definition M := Eval vm_compute in mismatches_block U CH CM CO PM CP BC CL BL.")
 		fmt.Fprintln(bw, "Print M.")
 		Must(bw.Flush())
 		Must(bf.Close())
@@ -830,16 +870,18 @@ func run(out, tier string, seed int64) {
 		fmt.Fprintln(dw, "From Ferret Require Import Hash Check.C08.\nRequire Import c08u.")
 		fmt.Fprintf(dw, "Definition H : list string := [\"%s\"]%%string.\n", strings.Join(hexH, "\";\""))
 		fmt.Fprintf(dw, "Definition HM : list string := [\"%s\"]%%string.\n", strings.Join(hexM, "\";\""))
-		fmt.Fprintln(dw, "Definition DR := Eval vm_compute in (drift U H, drift_map U HM).\nPrint DR.")
+		fmt.Fprintf(dw, "Definition HO : list string := [\"%s\"]%%string.\n", strings.Join(hexO, "\";\""))
+		fmt.Fprintln(dw, "Definition DR := Eval vm_compute in (drift U H, drift_map U HM, drift_members U HO).\nPrint DR.")
 		Must(dw.Flush())
 		Must(df.Close())
 		o, err := coqc(out, theories, "drift.v", 10*time.Minute)
-		mm := regexp.MustCompile(`DR = \((\d+)%N, (\d+)%N\)`).FindStringSubmatch(strings.Join(strings.Fields(o), " "))
+		mm := regexp.MustCompile(`DR = \((\d+)%N, (\d+)%N, (\d+)%N\)`).FindStringSubmatch(strings.Join(strings.Fields(o), " "))
 		if err == nil && mm != nil {
 			m.Extra["hash_value_drift"] = map[string]interface{}{
 				"values_compared":                   len(vals),
 				"Value.Hash_differs_from_FNV_model": mm[1],
 				"MapHash_differs_from_FNV_model":    mm[2],
+				"MapHash_of_object_members_differs": mm[3],
 				"note":                              "diagnostic only: a different hash function with the same induced equivalence keeps the property",
 			}
 		} else {
